@@ -16,9 +16,9 @@ from vlib import *
 from modcorpus import *
 import c03_util as U
 import c02 as C02
+import ext_layer            # extensibility layer (lib/ext_layer.py, notes/design/EXT.md)
 
 F_CHAIN = "C03-ber-chain-mixed-lengths"
-F_OSTAG = "C03-ber-constructed-string-tagged-type"
 
 
 def ber_variants(plan, rng, tier):
@@ -72,6 +72,20 @@ def ber_variants(plan, rng, tier):
                     elif n.lf == "i":
                         n.lf = "l%d" % rng.range(3, 5)
         emit("mix-uniform")
+    # every OCTET STRING in constructed form: the segments are UNIVERSAL 4 whatever the tags of the type and of
+    # the member are (chains kept uniform: definite, then indefinite where every TLV of the chain is constructed)
+    if any(n.kind == "o" for n in nodes):
+        for form in ("d", "i"):
+            plan.reset()
+            for n in nodes:
+                if n.kind == "o":
+                    n.seg = U.random_seg(len(n.content), rng)
+            if form == "i":
+                for c in plan.chains:
+                    if all(n.cons or n.seg is not None for n in c):
+                        for n in c:
+                            n.lf = "i"
+            emit("seg-all")
     plan.reset()
     seen, res = set(), []
     for v in out:
@@ -142,6 +156,8 @@ def ber_part(run, model, mods, cases, rng, tier):
                 run.count("ber_mixed_chain")
             if seg:
                 run.count("ber_segmented")
+            if segtl:
+                run.count("ber_segmented_tagged_type")
             exp = "OK %d %s ck=" % (len(b), c["der"])
             replay = {"module": m["text"], "type": c["tn"], "model_type": c["ts"], "value": c["vs"], "variant_kind": lab,
                       "command_line": l, "c": o, "expected": exp, "model": mo, "choices": ch, "canonical_der": c["der"]}
@@ -158,9 +174,6 @@ def ber_part(run, model, mods, cases, rng, tier):
                 continue
             if mixed and o.startswith("FAIL "):
                 run.known_finding(F_CHAIN, l)
-                continue
-            if segtl and o.startswith("FAIL "):
-                run.known_finding(F_OSTAG, l)
                 continue
             run.violation("oracle:ber_complete", dict(replay, what="the C BER decoder does not return OK / full length / the value on a valid encoding"))
         if cs and meta:
@@ -301,10 +314,9 @@ def xer_part(run, mods, cases, rng, tier):
             run.case(l)
             run.count("xer_%s_%s" % (syn, mode))
             exp = "OK %d %s ck=" % (len(v.encode("utf-8")), c["der"])
-            if not o.startswith(exp) and o.startswith("FAIL ") and U.xer_ws_before_boolean(v):
-                run.known_finding("C03-xer-boolean-leading-whitespace", l)
+            if U.xer_ws_before_boolean(v):
                 run.count("xer_ws_before_boolean")
-            elif not o.startswith(exp):
+            if not o.startswith(exp):
                 run.violation("oracle:xer_complete", {"what": "the C XER decoder does not return OK / full length / the value on a layout variant of its own output",
                                                       "module": m["text"], "type": c["tn"], "value": c["vs"], "layout": syn, "variant_kind": mode,
                                                       "c_output": text, "variant": v, "command_line": l, "c": o, "expected": exp})
@@ -328,6 +340,28 @@ def main(tier):
         run.violation("build", {"what": str(e)[-2500:]}, no_input=True)
         return run.finish("proof", (nthm, ndis))
     model = model_build()
+    # hand-made module: OCTET STRING types and members under IMPLICIT / EXPLICIT tags
+    sm = U.string_module()
+    build_modules([sm], tag="c03x")
+    mods.append(sm)
+    if sm.get("exe"):
+        sc = []
+        for tn, _ in sm["defs"]:
+            tree, seen = sm["trees"][tn], set()
+            for _ in range(6 if tier == "quick" else 16):
+                vs = val_str(value(tree, rng))
+                if vs not in seen:
+                    seen.add(vs)
+                    sc.append({"mod": sm, "tn": tn, "ts": model_str(tree), "vs": vs})
+        ml = []
+        for c in sc:
+            ml += ["der %s %s" % (c["ts"], c["vs"]), "uper 0 %s %s" % (c["ts"], c["vs"]), "uper 1 %s %s" % (c["ts"], c["vs"]), "oer %s %s" % (c["ts"], c["vs"])]
+        rcm, mo, me = run_lines(model, ml, timeout=600)
+        if rcm != 0 or len(mo) != len(ml):
+            raise RuntimeError("model driver failed (MO3): %s %s" % (rcm, me))
+        for i, c in enumerate(sc):
+            c["der"], c["uper"], c["uperstd"], c["oer"] = mo[4 * i:4 * i + 4]
+        cases += [c for c in sc if c["der"] != "NONE"]
     for m in mods:
         if not m.get("exe"):
             run.violation("build:module", {"what": "a valid generated module was rejected or its code does not compile", "module": m["text"],
@@ -343,6 +377,7 @@ def main(tier):
     log("C03: oer %.1fs" % (time.time() - t0)); t0 = time.time()
     xer_part(run, mods, cases, rng, tier)
     log("C03: xer %.1fs" % (time.time() - t0))
+    ext_layer.run_c03(run, rng, tier)
     tb = ["Coq 8.16.1 kernel", "axioms under Print Assumptions: " + (", ".join(sorted(axioms)) or "none (Closed under the global context)"),
           "extraction: ExtrOcamlBasic only; OCaml 4.13.1", "lib/c03_util.py (independent variant generators), lib/modgen.py, harness/moddrv.c, gcc + ASan/UBSan"]
     return run.finish("proof", (nthm, ndis), trusted_base=tb,
